@@ -89,7 +89,14 @@ def run(ctx):
             oks = [n for n in deep(h) if n.get("k") == "Lit" and n.get("str") == "OK"]
             in_allowed = [n for n in deep(allowed_region) if n.get("k") == "Lit" and n.get("str") == "OK"]
             health = [n for n in deep(allowed_region) if n.get("k") == "Lit" and n.get("str") == "/health"]
-            okh = len(oks) == 1 and len(in_allowed) == 1 and len(health) >= 1
+            # "/health" is compared for equality (a match-arm pattern or an == operand), not as a prefix/substring
+            exact = 0
+            for n in deep(allowed_region):
+                if n.get("k") == "Match":
+                    exact += sum(1 for a_ in n["arms"] if a_["pat"].get("k") == "Lit" and a_["pat"].get("str") == "/health")
+                if n.get("k") == "Binary" and n.get("op") in ("Eq", "Ne") and any(peel(n.get(x)).get("k") == "Lit" and peel(n.get(x)).get("str") == "/health" for x in ("a", "b")):
+                    exact += 1
+            okh = len(oks) == 1 and len(in_allowed) == 1 and exact >= 1 and len(health) == exact
             chk.ob("C18.a", f"{hh.path} [/health]", okh, "/health -> OK, only for allowed peers; any other path -> render" if okh else "/health is not answered `OK` under the allowlist gate", hh.loc())
         elif n_render != 1:
             detail = f"{n_render} render() call sites"
